@@ -22,6 +22,11 @@ Workload (one case = a session of 6-13 steps, every step drawn from the rng):
              usually directly followed by a good packet (recovery).
   * pulls  : all eight term_select / dp_pulldown / dm_pulldown combinations once at the start of every case, then
              changes at arbitrary moments.
+  * rx_fault / tx_restart (disturbances, themselves unjudged): a line packet with one bit time of SE1 or SE0 inside,
+    with an SE0 of 3..40 bit times, or without EOP (a complete packet follows so that an SE0 closes whatever is
+    open), always followed by a correct packet 1-6 bit times later, which is judged; tx_valid raised again 0-3 cycles
+    after the PHY's own EOP SE0 appeared on the pad (the SIE breaks the inter-packet delay), line release judged.
+  * one very long packet (128..515 bytes, thorough up to 1026) in ~12 % of the cases, tx or rx at +-0.25 %.
   * quiet non-driving (op_mode 1, tx_valid low) phases with reception, chirp-like raw phases (op_mode 2,
     constant tx_data; nothing judged), and as last step of ~45 % of the cases op_mode 1 *with* tx_valid
     activity, or op_mode switched to 1 in the middle of a transmission.
@@ -36,17 +41,18 @@ Oracle (independent, from USB 2.0 ch. 7.1 and UTMI 1.05):
     rx_valid only inside rx_active, no rx_error inside the span; a stuffing violation produces rx_error
     at a 12 MHz edge during (or <= 4 cycles around) the span, and the bytes completed before it are right;
   * no D+/D- output enable while op_mode == 1 (8 samples grace after the switch);
-  * pullup.o == term_select, pulldown.o == request when dp_pulldown == dm_pulldown (judged when the
-    requests have been stable for 2 cycles).
-Not judged: op_mode 2/3 behaviour, line_state / vbus outputs, the pulldown output when only one of the
-two pulldown requests is set, rx_error outside rx_active (luna's remover also counts the idle ones),
+  * pullup.o == term_select, pulldown.o == dp_pulldown | dm_pulldown (one pin for both resistors: a requested
+    pull-down must be connected, none requested -> released; judged when the requests have been stable for 2 cycles).
+Not judged: op_mode 2/3 behaviour, line_state / vbus_valid / session_end / rx_complete (the statement does not name
+them), rx_error outside rx_active (luna's remover also counts the idle ones),
 receive activity while the PHY itself drives, jitter beyond 1 ns, content after a stuffing violation.
 Findings on the unchanged tree (findings/C25.md, known_findings.d/C25.json): op-mode constants swapped
 (drives in op_mode 1), pulldown request wired to the pullup pin, rx_error only a 48 MHz pulse and also raised at
 the EOP of good packets (remover never reset), transmit bit stuffer never reset (extra 0 bit after SYNC / lost
 second byte).  Their classifiers are narrow: exact wire image for the transmit one, "all samples equal
-dp|dm" for the pull-up, position in the last 12 cycles of rx_active for the EOP error, "a 48 MHz pulse existed
-in the packet's window" for the missed error.
+dp|dm" for the pull-up; the EOP error only at 10+7n (or, five ones on K, 2) bit times after the last payload bit
+in line time; the missed error only if the one-sample 48 MHz pulse sits one bit time (+-3 samples) after the
+violating bit.
 Deviation from the statement's letter, deliberate: USB 2.0 7.1.9 counts the SYNC's final one for
 stuffing.  luna's transmitter does not (its receiver does).  The two encodings only differ for a first
 byte xxx11111 (no legal PID); for those transmit packets either encoding is accepted and the case is
@@ -68,7 +74,9 @@ REQUIRED_BINS = [
     "rx_drift_plus_max", "rx_drift_minus_max", "rx_drift_zero", "rx_long_packet", "rx_gap_min_2bits", "rx_stuff_after_last_bit",
     "rx_stuff_inside", "rx_first_byte_counts_sync_one", "rx_after_tx_tight", "rx_skewed", "rx_while_nondriving",
     "rx_bad_flipped_stuff_bit", "rx_bad_removed_stuff_bit", "rx_good_right_after_bad",
-    "nondriving_tx_valid_activity", "nondriving_switch_mid_packet", "pull_change",
+    "nondriving_tx_valid_activity", "nondriving_switch_mid_packet", "pull_change", "pulldown_dp_only", "pulldown_dm_only",
+    "tx_len_ge_128", "rx_len_ge_128", "tx_restart_during_eop",
+    "rx_after_fault_se1", "rx_after_fault_short_se0", "rx_after_fault_long_se0", "rx_after_fault_no_eop",
     "io_pullup_and_pulldown", "io_pullup_only", "io_pulldown_only", "io_no_pulls", "usb_phase_0", "usb_phase_1", "usb_phase_2", "usb_phase_3",
 ]
 REQUIRED_EVENTS = ["io_samples", "usb_samples", "tx_packets_judged", "tx_bytes_accepted", "tx_symbols_compared",
@@ -80,7 +88,9 @@ ASSUMPTIONS = [
     "tx_data is a don't-care while tx_valid is low (UTMI); the bench puts garbage there",
     "first transmit byte xxx11111: both stuffing conventions (SYNC one counted or not) accepted, counted as unjudged",
     "rx_error is judged only at 12 MHz edges in or <= 4 cycles around rx_active",
-    "pulldown output is judged only when dp_pulldown == dm_pulldown",
+    "single pulldown pin: it must be driven iff at least one of dp_pulldown / dm_pulldown is requested",
+    "SE1 / one-bit SE0 inside a packet, over-long SE0, missing EOP and tx_valid raised during the PHY's own EOP are generated "
+    "as unjudged disturbances: only the release of rx_active / the line behind them and the next correct packet are judged",
     "after the first violation of a case the remaining steps of that case are not judged (the DUT state is no longer trusted)",
 ]
 TIMEOUT = {"quick": 900, "thorough": 4 * 3600}
@@ -170,7 +180,7 @@ def break_stuffing(rng, data):
     else:
         del bits[w]
     good_bits = w - k           # payload bits before the missing/flipped stuff bit
-    return L.nrzi(L.SYNC_BITS + bits) + L.EOP, good_bits, how
+    return L.nrzi(L.SYNC_BITS + bits) + L.EOP, good_bits, how, w
 
 
 def make_script(rng, tier):
@@ -206,7 +216,25 @@ def make_script(rng, tier):
                 pk.append({"data": data, "kind": kind, "bad": None, "gap_bits": 2})
             if pk:
                 steps.append(_rx_step(rng, pk))
-        elif r < 0.92:
+        elif r < 0.87:
+            # a malformed thing on the line (not judged), then a correct packet that must be delivered
+            data, kind = gen_bytes(rng, tier, kind=rng.choice(["random", "stuffy", "usb", "zeros"]), long_ok=False)
+            if len(data) < 2:
+                data = data + bytes([rng.randrange(256)])
+            fault = rng.choice(["se1", "short_se0", "long_se0", "no_eop"])
+            steps.append({"op": "rx_fault", "fault": fault, "data": data, "at": rng.randrange(8, 8 + 8 * len(data)),
+                          "len_bits": rng.choice([3, 4, 8, 20, 40]), "idle_bits": rng.choice([3, 5, 9, 20]),
+                          "drift": rng.choice([0.0025, -0.0025, 0.0]), "phase_fs": rng.randrange(P_USB)})
+            data, kind = gen_bytes(rng, tier, long_ok=False)
+            nxt = _rx_step(rng, [{"data": data, "kind": kind, "bad": None, "gap_bits": 2}])
+            nxt["pre_bits"] = rng.choice([1, 2, 3, 6])
+            steps.append(nxt)
+        elif r < 0.89:
+            d1, _ = gen_bytes(rng, tier, long_ok=False)
+            d2, _ = gen_bytes(rng, tier, long_ok=False)
+            steps.append({"op": "tx_restart", "data": d1, "data2": d2, "gap": 2, "garbage": rng.choice(["ones", "zero"]),
+                          "after_se0": rng.choice([0, 0, 1, 2, 3])})
+        elif r < 0.94:
             steps.append({"op": "pulls", "term": rng.getrandbits(1), "dp": rng.getrandbits(1), "dm": rng.getrandbits(1),
                           "wait": rng.randint(3, 12)})
         elif r < 0.97:
@@ -216,6 +244,24 @@ def make_script(rng, tier):
             steps.append({"op": "quiet_nd", "on": False})
         else:
             steps.append({"op": "raw", "value": rng.choice([0x00, 0xFF]), "cycles": rng.randint(4, 40)})
+    # a very long packet (the rate offset accumulates to several bit times) in ~12 % of the cases, transmit or receive
+    if rng.random() < 0.12:
+        n = rng.choice([128, 200, 256, 515]) if tier == "quick" else rng.choice([128, 256, 515, 1026, rng.randint(71, 1026)])
+        body = bytes(rng.choice(STUFFY) if rng.random() < 0.4 else rng.randrange(256) for _ in range(n - 1))
+        data = bytes([rng.choice([0xC3, 0x4B])]) + body
+        allowed, nd = [], False
+        for q in range(len(steps) + 1):           # not inside a quiet non-driving group, not between a fault and its good packet
+            if q > 0 and steps[q - 1]["op"] == "quiet_nd":
+                nd = steps[q - 1]["on"]
+            if not nd and not (q > 0 and steps[q - 1]["op"] == "rx_fault"):
+                allowed.append(q)
+        pos = rng.choice(allowed)
+        if rng.random() < 0.5:
+            steps.insert(pos, {"op": "tx", "data": data, "kind": "vlong", "gap": rng.choice([0, 2, 9]), "garbage": rng.choice(["ones", "zero"])})
+        else:
+            st = _rx_step(rng, [{"data": data, "kind": "vlong", "bad": None, "gap_bits": 2}])
+            st["drift"] = rng.choice([0.0025, -0.0025, 0.0025, -0.0025, st["drift"]])
+            steps.insert(pos, st)
     r = rng.random()
     if r < 0.30:
         steps.append({"op": "nd_activity", "cycles": rng.randint(30, 90), "p_valid": rng.choice([0.3, 0.6, 0.9, 1.0]),
@@ -331,7 +377,7 @@ def run_case(rng, tier, res):
             usblog.append((v & 1, (v >> 1) & 1, (v >> 10) & 0xFF, (v >> 2) & 1, (v >> 3) & 1, (v >> 4) & 1, (v >> 18) & 0xFF,
                            (v >> 5) & 1, (v >> 6) & 1, (v >> 7) & 1, (v >> 8) & 1, (v >> 9) & 1, st["mark"]))
 
-    info = {}      # per step index: what the conductor did
+    info = {"_usb_phase": usb_phase}      # per step index: what the conductor did
 
     def garbage_value(mode, hold):
         if mode == "ones":
@@ -410,7 +456,7 @@ def run_case(rng, tier, res):
             j = k
             while j < n and syms[j] == s:
                 j += 1
-            p, q = (1 if s == "J" else 0), (1 if s == "K" else 0)
+            p, q = (1 if s in "J1" else 0), (1 if s in "K1" else 0)
             used = 0
             if skew_fs:
                 if skew_first == "p":
@@ -428,7 +474,7 @@ def run_case(rng, tier, res):
 
     async def do_rx(ctx, k, s):
         tb = P_USB * (1.0 + s["drift"])
-        rec = info[k] = {"idle_ok": True}
+        rec = info[k] = {"idle_ok": True, "starts": [], "usb_phase": usb_phase}
         await ctx.delay(_sec(s["phase_fs"] + 1))
         await ctx.delay(_sec(int(s["pre_bits"] * tb)))
         for pi, p in enumerate(s["packets"]):
@@ -436,6 +482,7 @@ def run_case(rng, tier, res):
             last = pi == len(s["packets"]) - 1
             # EOP's J is the first bit time of the inter-packet idle
             tail = "" if last else "J" * (p["gap_bits"] - 1)
+            rec["starts"].append(len(iolog))        # 48 MHz edges elapsed when the first K of the SYNC is put on the line
             await send_symbols(ctx, syms + tail, tb, s["skew_fs"], s["skew_first"])
         ctx.set(top.ext_p, 1)
         ctx.set(top.ext_n, 0)
@@ -443,6 +490,68 @@ def run_case(rng, tier, res):
         rec["idle_ok"] = await wait_rx_idle(ctx)
         if s["post"]:
             await ctx.tick("usb").repeat(s["post"])
+
+    async def do_rx_fault(ctx, k, s):
+        tb = P_USB * (1.0 + s["drift"])
+        rec = info[k] = {"idle_ok": True}
+        await ctx.delay(_sec(s["phase_fs"] + 1))
+        await ctx.delay(_sec(int(3 * tb)))
+        good = L.encode(s["data"])
+        f = s["fault"]
+        if f == "se1":
+            syms = good[:s["at"]] + "1" + good[s["at"] + 1:]
+        elif f == "short_se0":
+            syms = good[:s["at"]] + "0" + good[s["at"] + 1:]
+        elif f == "long_se0":
+            syms = good[:-3] + "0" * s["len_bits"] + "J"
+        else:   # no EOP: the line simply returns to idle; a complete packet follows so that an SE0 ends whatever is open
+            syms = good[:-3] + "J" * s["idle_bits"] + L.encode(bytes([0xD2]))
+        await send_symbols(ctx, syms + "J" * s["idle_bits"], tb, 0, "p")
+        ctx.set(top.ext_p, 1)
+        ctx.set(top.ext_n, 0)
+        await ctx.tick("usb").repeat(2)
+        rec["idle_ok"] = await wait_rx_idle(ctx)
+
+    async def do_tx_restart(ctx, k, s):
+        """tx_valid raised again while the PHY still sends the EOP of the previous packet (the SIE breaks the inter-packet
+        delay): content not judged, the PHY must release the line and behave afterwards."""
+        rec = info[k] = {"released": True}
+        data = s["data"]
+        ctx.set(phy.tx_valid, 1)
+        ctx.set(phy.tx_data, data[0])
+        i = 0
+        for _ in range(60 * len(data) + 60):
+            v = await ctx.tick("usb").sample(phy.tx_ready)
+            if v[2]:
+                i += 1
+                if i < len(data):
+                    ctx.set(phy.tx_data, data[i])
+                else:
+                    ctx.set(phy.tx_valid, 0)
+                    break
+        for _ in range(60):       # wait for the SE0 of the EOP on the pad
+            v = await ctx.tick("usb").sample(io.d_p.oe, io.d_p.o, io.d_n.o)
+            if v[2] and not v[3] and not v[4]:
+                break
+        if s["after_se0"]:
+            await ctx.tick("usb").repeat(s["after_se0"])
+        data = s["data2"]
+        ctx.set(phy.tx_valid, 1)
+        ctx.set(phy.tx_data, data[0])
+        i = 0
+        for _ in range(60 * len(data) + 60):
+            v = await ctx.tick("usb").sample(phy.tx_ready)
+            if v[2]:
+                i += 1
+                if i < len(data):
+                    ctx.set(phy.tx_data, data[i])
+                else:
+                    break
+        ctx.set(phy.tx_valid, 0)
+        ctx.set(phy.tx_data, garbage_value(s["garbage"], 0))
+        await ctx.tick("usb").repeat(3)
+        rec["released"] = await wait_line_released(ctx)
+        await ctx.tick("usb").repeat(16)
 
     async def conductor(ctx):
         ctx.set(phy.tx_data, rng.choice([0, 0xFF, rng.randrange(256)]))
@@ -467,6 +576,10 @@ def run_case(rng, tier, res):
                 await do_tx(ctx, k, s)
             elif op == "rx":
                 await do_rx(ctx, k, s)
+            elif op == "rx_fault":
+                await do_rx_fault(ctx, k, s)
+            elif op == "tx_restart":
+                await do_tx_restart(ctx, k, s)
             elif op == "pulls":
                 ctx.set(phy.term_select, s["term"])
                 ctx.set(phy.dp_pulldown, s["dp"])
@@ -515,14 +628,18 @@ def run_case(rng, tier, res):
 
 def _describe(s, full=False):
     d = {"op": s["op"]}
-    if s["op"] in ("tx", "nd_switch"):
+    if s["op"] in ("tx", "nd_switch", "tx_restart"):
         d.update(data=s["data"].hex() if full else s["data"][:12].hex(), n=len(s["data"]), gap=s["gap"], garbage=s["garbage"])
         if s["op"] == "nd_switch":
             d.update(at=s["at_byte"], extra=s["extra"])
+        if s["op"] == "tx_restart":
+            d.update(data2=s["data2"].hex(), after_se0=s["after_se0"])
     elif s["op"] == "rx":
         d.update(drift=round(s["drift"], 6), phase_fs=s["phase_fs"], skew_fs=s["skew_fs"], pre=s["pre_bits"], post=s["post"],
                  packets=[{"data": p["data"].hex() if full else p["data"][:12].hex(), "n": len(p["data"]), "gap": p["gap_bits"],
                            "bad": (p["bad"][2], p["bad"][1]) if p["bad"] else None} for p in s["packets"]])
+    elif s["op"] == "rx_fault":
+        d.update(fault=s["fault"], data=s["data"].hex(), at=s["at"], len_bits=s["len_bits"], idle_bits=s["idle_bits"], drift=s["drift"], phase_fs=s["phase_fs"])
     else:
         d.update({k: v for k, v in s.items() if k != "op"})
     return d
@@ -585,10 +702,9 @@ def judge(res, steps, info, iolog, usblog, variant):
         for i, u in rows:
             term, dp, dm = u[9], u[10], u[11]
             if dp != dm:
-                res.unjudged += 1
-                continue
+                res.bin("pulldown_dp_only" if dp else "pulldown_dm_only")
             res.event("pulldown_samples_compared")
-            if u[8] != dp:
+            if u[8] != (dp | dm):
                 mech = "pulldown_output_mismatch"
                 if all(x[8] == 0 for x in usblog):
                     mech = "pulldown_pin_never_driven"
@@ -619,6 +735,11 @@ def judge(res, steps, info, iolog, usblog, variant):
         spans = tx_spans.get(k, [])
         if s["op"] == "tx":
             _judge_tx(res, viol, k, s, info.get(k), spans, iolog)
+        elif s["op"] == "tx_restart":
+            res.bin("tx_restart_during_eop")
+            res.unjudged += 1
+            if not info.get(k, {}).get("released", True):
+                viol(k, "tx_line_never_released_after_restart", "d_p/d_n oe still high 400 cycles after tx_valid fell")
         elif s["op"] in ("raw", "nd_activity", "nd_switch"):
             if s["op"] == "nd_activity":
                 res.bin("nondriving_tx_valid_activity")
@@ -646,12 +767,18 @@ def judge(res, steps, info, iolog, usblog, variant):
                 res.bin("rx_while_nondriving")
             if prev_op == "tx" and s["pre_bits"] <= 2:
                 res.bin("rx_after_tx_tight")
+            if prev_op == "rx_fault":
+                res.bin("rx_after_fault_" + steps[k - 1]["fault"])
             _judge_rx(res, viol, k, s, info.get(k), spans, usblog, iolog)
+        elif s["op"] == "rx_fault":
+            res.unjudged += 1 + len(spans)
+            if not info.get(k, {}).get("idle_ok", True):
+                viol(k, "rx_active_stuck_after_line_fault", "rx_active still high 80 cycles after the line returned to idle behind an SE0")
         elif s["op"] in ("pulls", "quiet_nd") and spans:
             viol(k, "rx_active_without_packet", "rx_active span usb cycles %s while the line is idle" % (spans[:2],))
         elif spans:
             res.unjudged += len(spans)      # own transmission / raw drive: not judged
-        if s["op"] == "tx" and prev_op == "rx" and s["gap"] <= 1 and steps[k - 1]["post"] == 0:
+        if s["op"] == "tx" and prev_op == "rx" and s["gap"] <= 1 and steps[k - 1].get("post") == 0:
             res.bin("tx_after_rx_tight")
         if s["op"] == "pulls":
             res.bin("pull_change")
@@ -698,6 +825,8 @@ def _judge_tx(res, viol, k, s, rec, spans, iolog):
     res.event("tx_symbols_compared", len(syms))
     nst, last, boundary = stuffing_profile(data)
     res.bin("tx_len_1" if len(data) == 1 else "tx_len_ge_32" if len(data) >= 32 else "tx_len_mid")
+    if len(data) >= 128:
+        res.bin("tx_len_ge_128")
     if nst:
         res.bin("tx_stuff_inside")
     if nst >= 3:
@@ -769,6 +898,8 @@ def _judge_rx(res, viol, k, s, rec, spans, usblog, iolog):
             res.bin(dbin)
             if len(data) >= 32:
                 res.bin("rx_long_packet")
+            if len(data) >= 128:
+                res.bin("rx_len_ge_128")
             if pi > 0 and pk[pi - 1]["gap_bits"] == 2:
                 res.bin("rx_gap_min_2bits")
                 if pk[pi - 1]["bad"]:
@@ -805,14 +936,19 @@ def _judge_rx(res, viol, k, s, rec, spans, usblog, iolog):
                     if not bit:
                         break
                     t += 1
-                if t == len(st_bits):
-                    t += 1
-                seventh = (7 - t) if wire[-1] == "J" else 8
-                mech = "rx_error_on_good_packet"
-                if min(offs) >= len(seg) - 12:
-                    mech = "rx_error_on_good_packet_at_eop"
-                viol(k, mech, "packet %d %s: rx_error high inside rx_active at usb cycle offsets %s of %d (packet ends with %d ones, line %s "
-                     "before SE0)" % (pi, data.hex(), offs[:5], len(seg), t, wire[-1]), taints=False)
+                # Known witness, exactly: the remover that is never reset decodes the idle line behind SE0 SE0 J as ones and
+                # raises its seventh-one pulse 10 (+7n) bit times after the last payload bit - or 2 bit times after it when the
+                # payload ends with five ones on K (SE0 SE0 then read as ones six and seven).  One bit time of pipeline latency
+                # (measured on the violating packets).  Anything else is a different failure.
+                tb4 = 4.0 * (1.0 + d)
+                base = rec["starts"][pi] + len(wire) * tb4
+                rels = [(rec["usb_phase"] + 4 * (a + off) - base) / 4.0 - 1.0 for off in offs]
+                known = all(any(abs(r - (10 + 7 * n)) <= 0.75 for n in range(12)) or (t == 5 and wire[-1] == "K" and abs(r - 2) <= 0.75)
+                            for r in rels)
+                mech = "rx_error_on_good_packet_at_eop" if known else "rx_error_on_good_packet"
+                viol(k, mech, "packet %d %s: rx_error high inside rx_active at usb cycle offsets %s of %d = %s bit times after the last "
+                     "payload bit (packet ends with %d ones, line %s before SE0)" % (
+                         pi, data.hex(), offs[:5], len(seg), [round(r, 1) for r in rels[:5]], t, wire[-1]), taints=False)
         else:
             res.event("rx_error_expected")
             res.bin("rx_bad_flipped_stuff_bit" if p["bad"][2] == "flip" else "rx_bad_removed_stuff_bit")
@@ -824,8 +960,11 @@ def _judge_rx(res, viol, k, s, rec, spans, usblog, iolog):
             lo, hi = max(0, a - 4), min(len(usblog), b + 4)
             if not any(u[3] for u in usblog[lo:hi]):
                 # was there a pulse at all, between two 12 MHz edges?
-                pulses = sum(1 for x in iolog[4 * lo:4 * b + 4] if x[4])
+                # Known witness, exactly: the remover's one-48-MHz-cycle pulse for this very bit (the seventh one), one bit time
+                # (4 +- 3 samples) after that bit ended on the line.  Idle-line pulses elsewhere do not count.
+                pred = rec["starts"][pi] + (8 + p["bad"][3] + 1) * 4.0 * (1.0 + d) + 4
+                pulses = sum(1 for x in iolog[max(0, int(round(pred)) - 3):int(round(pred)) + 4] if x[4])
                 mech = "rx_error_not_reported" if not pulses else "rx_error_pulse_missed_by_12mhz_clock"
                 viol(k, mech, "packet %d %s with stuffing violation (%s stuffed bit after payload bit %d): rx_error never high at a usb edge in "
-                     "cycles %d..%d (rx_active %d..%d); 48 MHz samples with rx_error high in that window: %d" % (
+                     "cycles %d..%d (rx_active %d..%d); 48 MHz samples with rx_error high within 3 samples of the violating bit + 1 bit time: %d" % (
                          pi, data.hex(), p["bad"][2], p["bad"][1], lo, hi, a, b, pulses), taints=(pulses == 0))
